@@ -782,23 +782,39 @@ pub fn p5_full() -> ProgSpace {
 pub fn p_guard_then_op() -> ProgSpace {
     let env = std_env();
     let k = parse_prog("(keccak256 (q . \"abc\"))");
-    let mk = |ext: u8, inner: &T, new: bool| -> T {
-        let f = if new { ClvmFlags::NEW_COST_MODEL } else { ClvmFlags::empty() };
-        let c = standalone_cost(inner, &env, f).map(|c| c + if new { 500 } else { 140 }).unwrap_or(1000);
+    // declared cost = exact cost of the body, computed either with keccak256 available or with opcode 62 unknown
+    let mk = |ext: u8, inner: &T, new: bool, keccak_known: bool| -> T {
+        let mut f = if new { ClvmFlags::NEW_COST_MODEL } else { ClvmFlags::empty() };
+        if keccak_known {
+            f |= ClvmFlags::ENABLE_KECCAK_OPS_OUTSIDE_GUARD;
+        }
+        let c = with_loaded(inner, &env, Enc::Inline, |l| {
+            let o = l.run_flags(f, 0);
+            if o.ok { Some(o.cost) } else { None }
+        })
+        .map(|c| c + if new { 500 } else { 140 })
+        .unwrap_or(1000);
         list(&[atom(&[36]), quote(int_atom(c as i128)), quote(if ext == 0 { nil() } else { atom(&[ext]) }), quote(inner.clone()), atom(&[1])])
     };
     let c2 = |a: T, b: T| list(&[atom(&[4]), a, b]);
     let mut progs: Vec<Vec<u8>> = vec![];
     for new in [false, true] {
-        for ext in [0u8, 1, 2] {
-            let nested = mk(1, &k, new);
-            let inners = [parse_prog("(q . 1)"), k.clone(), nested.clone(), c2(nested.clone(), k.clone()), c2(k.clone(), nested.clone())];
-            for inner in &inners {
-                let g = mk(ext, inner, new);
-                progs.push(c2(g.clone(), k.clone()).ser());
-                progs.push(c2(k.clone(), g.clone()).ser());
-                progs.push(c2(g.clone(), c2(k.clone(), g.clone())).ser());
-                progs.push(g.ser());
+        for known in [true, false] {
+            for ext in [0u8, 1, 2] {
+                let mut inners = vec![parse_prog("(q . 1)"), k.clone()];
+                for e2 in [0u8, 1, 2] {
+                    let nested = mk(e2, &k, new, known);
+                    inners.push(nested.clone());
+                    inners.push(c2(nested.clone(), k.clone()));
+                    inners.push(c2(k.clone(), nested.clone()));
+                }
+                for inner in &inners {
+                    let g = mk(ext, inner, new, known);
+                    progs.push(c2(g.clone(), k.clone()).ser());
+                    progs.push(c2(k.clone(), g.clone()).ser());
+                    progs.push(c2(g.clone(), c2(k.clone(), g.clone())).ser());
+                    progs.push(g.ser());
+                }
             }
         }
     }
@@ -806,7 +822,7 @@ pub fn p_guard_then_op() -> ProgSpace {
     progs.dedup();
     let total = progs.len() as u64;
     ProgSpace {
-        name: format!("GUARD-THEN-OP({total} programs: keccak256 before/after/between/inside guards of extension 0,1,2, nested)"),
+        name: format!("GUARD-THEN-OP({total} programs: keccak256 before/after/between/inside guards of extension 0,1,2, nested in guards of extension 0,1,2; declared costs with opcode 62 known and unknown)"),
         total,
         get: Box::new(move |i| (tree::deser(&progs[i as usize]).unwrap().0, std_env())),
     }
